@@ -58,11 +58,7 @@ def auxVerdicts (s : Schema) (d : QueryDoc) : List (String × Bool) :=
   [ ("aux.variableTypesExist", variableTypesExist s d),
     ("aux.mergingJudged", mergingJudged s d),
     ("aux.oneOfVariablesNonNull", oneOfVariablesNonNull s d),
-    ("aux.selectionParentsComposite", (docSels s d).all fun t =>
-      match t.parent, t.sel with
-      | some p, _ => isComposite p
-      | none, .field _ nm _ _ _ _ => nm != nameTypename
-      | none, _ => true),
+    ("aux.selectionParentsComposite", wellParented s d),
     ("aux.anonymousAtMostOne", (d.ops.filter (·.name == [])).length ≤ 1) ]
 
 end Gql.Validate.Spec
